@@ -353,6 +353,79 @@ func ruleC04(c *Ctx, r *Report) {
 		}
 	}
 
+	// ---- (copies) a copy is paired with its slice by position: the slice list of a global rule keeps the configured order
+	if fSlices := c.Field("proxy/router", "BaseRule", "slices"); fSlices != nil {
+		n := 0
+		for _, fn := range c.Funcs {
+			if fn.Pkg == nil || !strings.HasSuffix(fn.Pkg.Pkg.Path(), "proxy/router") || c.IsMockFunc(fn) {
+				continue
+			}
+			allInstrs(fn, func(in ssa.Instruction) {
+				st, ok := in.(*ssa.Store)
+				if !ok || fieldOfAddr(st.Addr) != fSlices {
+					return
+				}
+				// only the list handed to global rules is built here (others copy cfg.Slices or a literal)
+				if _, isAppendBuilt := stripValue(st.Val).(*ssa.Phi); !isAppendBuilt {
+					if _, isCall := stripValue(st.Val).(*ssa.Call); !isCall {
+						return
+					}
+				}
+				n++
+				cons := fmt.Sprintf("copies:slice-order@%d", n)
+				bad := ""
+				leaves := map[ssa.Value]bool{}
+				for _, l := range phiLeaves(st.Val) {
+					leaves[l] = true
+				}
+				allInstrs(fn, func(in2 ssa.Instruction) {
+					if es, ok := in2.(*ssa.Store); ok {
+						if ia, ok := es.Addr.(*ssa.IndexAddr); ok {
+							if _, isArr := ia.X.(*ssa.Alloc); !isArr {
+								for _, l := range phiLeaves(ia.X) {
+									if leaves[l] || sameVal(ia.X, st.Val) {
+										bad = "elements of the slice list stored in the rule are overwritten in place (reordered)"
+									}
+								}
+							}
+						}
+						return
+					}
+					call, ok := in2.(*ssa.Call)
+					if !ok {
+						return
+					}
+					if f := staticCallee(&call.Call); f != nil && f.Pkg != nil && f.Pkg.Pkg.Path() == "sort" && len(call.Call.Args) > 0 {
+						for _, l := range phiLeaves(call.Call.Args[0]) {
+							if leaves[l] || sameVal(call.Call.Args[0], st.Val) {
+								bad = "the slice list stored in the rule is sorted"
+							}
+						}
+					}
+					if bi, ok := call.Call.Value.(*ssa.Builtin); ok && bi.Name() == "append" && leaves[ssa.Value(call)] {
+						// appended inside a range over a map: iteration order is not the configured order
+						for _, v := range variadicElems(call.Call.Args[1]) {
+							if ex, ok := stripValue(v).(*ssa.Extract); ok {
+								if nx, ok := ex.Tuple.(*ssa.Next); ok {
+									if rg, ok := nx.Iter.(*ssa.Range); ok {
+										if _, isMap := rg.X.Type().Underlying().(*types.Map); isMap {
+											bad = "the slice list stored in the rule is collected from a map iteration"
+										}
+									}
+								}
+							}
+						}
+					}
+				})
+				if bad == "" {
+					r.ok(rule, c.FuncName(fn), cons, c.Pos(st.Pos()), "the slice list keeps the order in which the namespace lists its slices")
+				} else {
+					r.viol(rule, c.FuncName(fn), cons, c.Pos(st.Pos()), bad+": a global rule pairs copy i with slice i of that list, so statements rewritten for one copy's database are sent to another slice")
+				}
+			})
+		}
+	}
+
 	// ---- (route) HandleInsertStmt: the global edge leads to generateGlobalShardingSQLs
 	{
 		name := c.FuncName(handleInsert)
@@ -899,7 +972,7 @@ func init() {
 
 func ruleC01(c *Ctx, r *Report) {
 	const rule = "MP-C01"
-	r.floor(rule, 10)
+	r.floor(rule, 12)
 	outer := c.Func(planRel, "getFindTableIndexesFunc")
 	adjust := c.Func(planRel, "adjustShardIndex")
 	makeList := c.Func(planRel, "makeList")
@@ -1068,6 +1141,82 @@ func ruleC01(c *Ctx, r *Report) {
 			}
 			r.viol(rule, aname, cons, c.Pos(ret.Pos()), "adjustShardIndex returns something other than index or index-1")
 		}
+	}
+	// (g) BETWEEN / NOT BETWEEN on a range shard: both bound tables stay in the route
+	if bt := c.Func(planRel, "getShardBetweenExprRouteResult"); bt != nil {
+		bname := c.FuncName(bt)
+		unionL := c.Func(planRel, "unionList")
+		fromFind := func(v ssa.Value) bool {
+			ls := phiLeaves(v)
+			if len(ls) == 0 {
+				return false
+			}
+			for _, l := range ls {
+				if isFindIdx(l) {
+					continue
+				}
+				if ac, ok := l.(*ssa.Call); ok && callsFunc(&ac.Call, adjust) && len(ac.Call.Args) == 3 {
+					okArg := true
+					for _, al := range phiLeaves(ac.Call.Args[2]) {
+						if !isFindIdx(al) {
+							okArg = false
+						}
+					}
+					if okArg {
+						continue
+					}
+				}
+				return false
+			}
+			return true
+		}
+		// classify a makeList call: "first..x", "y..last", "x..y", or ""
+		classify := func(v ssa.Value) string {
+			call, ok := stripValue(v).(*ssa.Call)
+			if !ok || !callsFunc(&call.Call, makeList) || len(call.Call.Args) != 2 {
+				return ""
+			}
+			lo, hi := call.Call.Args[0], plusOne(call.Call.Args[1])
+			if hi == nil {
+				return ""
+			}
+			switch {
+			case isCallTo(lo, mFirst) != nil && fromFind(hi):
+				return "first..x"
+			case fromFind(lo) && isCallTo(hi, mLast) != nil:
+				return "y..last"
+			case fromFind(lo) && fromFind(hi):
+				return "x..y"
+			}
+			return ""
+		}
+		nb := 0
+		for _, ret := range returnsOf(bt) {
+			isNil, known := returnsNilError(ret)
+			if known && !isNil {
+				continue
+			}
+			nb++
+			cons := fmt.Sprintf("between:return#%d", nb)
+			v := stripValue(ret.Results[0])
+			if k := classify(v); k == "x..y" {
+				r.ok(rule, bname, cons, c.Pos(ret.Pos()), "BETWEEN: every table from the table of one bound to the table of the other")
+				continue
+			}
+			if call, ok := v.(*ssa.Call); ok && unionL != nil && callsFunc(&call.Call, unionL) && len(call.Call.Args) == 2 {
+				a, b := classify(call.Call.Args[0]), classify(call.Call.Args[1])
+				if (a == "first..x" && b == "y..last") || (a == "y..last" && b == "first..x") {
+					r.ok(rule, bname, cons, c.Pos(ret.Pos()), "NOT BETWEEN: [first .. table of the lower bound] and [table of the upper bound .. last]: both bound tables are kept")
+					continue
+				}
+			}
+			r.viol(rule, bname, cons, c.Pos(ret.Pos()), "the route of a (NOT) BETWEEN on a range shard is not built from the tables of its two bounds inclusively (makeList(x, y+1), or makeList(first, x+1) ∪ makeList(y, last+1)): the tables that hold the bounds are only partly covered by the condition and must stay in the route")
+		}
+		if nb == 0 {
+			r.undecided(rule, bname, "between:returns", c.Pos(bt.Pos()), "no success return found")
+		}
+	} else {
+		r.undecided(rule, planRel+".getShardBetweenExprRouteResult", "between:anchor", "-", "not found")
 	}
 	// (f) `value op column` is routed with the mirrored operator: inverseOperator maps GT<->LT, GE<->LE
 	if inv := c.Func(planRel, "inverseOperator"); inv != nil {
